@@ -29,7 +29,17 @@ type c06Suite struct{}
 
 func init() { register("c06", c06Suite{}) }
 
-var c06Kinds = []string{"fresh", "translator", "cross", "keywords", "case", "swap", "probe", "sys"}
+var c06Kinds = []string{"fresh", "translator", "cross", "keywords", "case", "swap", "probe", "sys", "escaped"}
+
+// legal Cypher names that need back-tick escaping: quotes and backslashes in every combination, control characters,
+// zero-width and non-BMP runes, names at PostgreSQL's 63-byte identifier limit and one beyond, SQL keywords and generated
+// identifiers WITH back-ticks, comment and dollar-quote openers, an escaped back-tick
+var c06EscapedNames = []string{
+	"`a\"b`", "`a\"\"b`", "`\"`", "`\"\"`", "`back\\slash`", "`q\\\"x`", "`end\\`", "`a\\\\\"; drop table node; --`",
+	"`tab\tname`", "`nl\nname`", "`bell\x07x`", "`zero\u200bwidth`", "`\U0001d4b3name`", "`é\"ß`",
+	"`" + strings.Repeat("k", 63) + "`", "`" + strings.Repeat("k", 64) + "`", "`" + strings.Repeat("\"", 31) + "`",
+	"`select`", "`from`", "`order`", "`n0`", "`s0`", "`i0`", "`pi0`", "`a``b`", "`semi;colon -- x`", "`$$`", "`$t$x$t$`", "`/*c*/`", "`'quote'`", "`a b`", "`E'x'`",
+}
 
 var c06GenIDAnywhere = regexp.MustCompile(`\b(n|e|s|i|pi|ep|pc|ex)[0-9]+\b`)
 
@@ -146,6 +156,19 @@ func c06Renaming(kind string, seed uint64, vars, params []string) (rv, rp map[st
 		fromPool(c06TranslatorNames)
 	case "keywords":
 		fromPool(c06Keywords)
+	case "escaped":
+		// variables / aliases take escaped names; parameters (no escaped form in the model) stay fresh
+		p := shuffle(c06EscapedNames)
+		for i, v := range vars {
+			if i < len(p) {
+				rv[v] = p[i]
+			} else {
+				rv[v] = fmt.Sprintf("`x\"%d`", i)
+			}
+		}
+		for i, q := range params {
+			rp[q] = fmt.Sprintf("zp%dx", i)
+		}
 	case "case":
 		idx := shuffle(func() []string {
 			n := len(vars) + len(params)
@@ -247,7 +270,7 @@ func (c06Suite) Gen(rng *Rng, tier string, w *bufio.Writer, stats *Stats) {
 	ngen := 400
 	if tier == "thorough" {
 		reps = 4
-		ngen = 6000
+		ngen = 4500
 	}
 	// kind "sys": seed 0 = quick candidate set, 1 = every identifier of the translation (thorough); once per query
 	sysMode := uint64(0)
@@ -263,6 +286,9 @@ func (c06Suite) Gen(rng *Rng, tier string, w *bufio.Writer, stats *Stats) {
 						stats.Inc("corpus_cases_gen")
 					}
 					continue
+				}
+				if (k == "escaped" || k == "keywords" || k == "case") && r >= 2 {
+					continue // two draws of these alphabets per corpus query are enough in the thorough tier
 				}
 				emit("corpus:"+c.Source, k, rng.Next()%1000000, c.Query, c.Params)
 				stats.Inc("corpus_cases_gen")
@@ -694,6 +720,12 @@ func (r *c06Runner) check(q string, params map[string]any, rvIn, rpIn map[string
 	}
 	if cls != "ok" && cls != "untranslatable" && cls != "ns-collision" {
 		cls, detail = r.refine(q, params, m, vars, prms, rv, rp, cls, detail, pair)
+	}
+	if cls == "ok" && pair.a.Status == "ok" && pair.b.Status == "ok" {
+		// TOKEN level: the unmasked statements have the same token sequence, identifier tokens differing only as renamed pairs
+		if same, why := tokensEqualModuloRenaming(pair.a.RawSQL, pair.b.RawSQL, rv, rp); !same {
+			cls, detail = "token-structure-differs", why+" | renamed statement: "+pair.b.RawSQL
+		}
 	}
 	return
 }
